@@ -1,6 +1,7 @@
 package main
 
 import (
+	"path/filepath"
 	"bytes"
 	"fmt"
 	"math/rand"
@@ -155,10 +156,13 @@ func oracleC04CfgFlag(p *Pair, env *Env, a [][]byte) *Failure {
 	t := Tree{"regex-assembly/include/": nil, "regex-assembly/exclude/": nil,
 		"regex-assembly/toolchain.yaml": []byte(toolchainYaml(cfgA)), "regex-assembly/other.yaml": []byte(toolchainYaml(cfgB)), "conf/third.yaml": []byte(toolchainYaml(cfgB))}
 	_ = t.write(sb)
+	// a configuration file behind a symbolic link (relative and absolute) is the file it points to
+	_ = os.Symlink(filepath.Join("..", "conf", "third.yaml"), filepath.Join(sb, "regex-assembly", "linked.yaml"))
+	_ = os.Symlink(filepath.Join(sb, "conf", "third.yaml"), filepath.Join(sb, "regex-assembly", "abslinked.yaml"))
 	for _, v := range []struct {
 		flags []string
 		cfg   [][]byte
-	}{{nil, cfgA}, {[]string{"-f", "other.yaml"}, cfgB}, {[]string{"--configuration", "other.yaml"}, cfgB}, {[]string{"-f", "../conf/third.yaml"}, cfgB},
+	}{{nil, cfgA}, {[]string{"-f", "linked.yaml"}, cfgB}, {[]string{"-f", "abslinked.yaml"}, cfgB}, {[]string{"-f", "other.yaml"}, cfgB}, {[]string{"--configuration", "other.yaml"}, cfgB}, {[]string{"-f", "../conf/third.yaml"}, cfgB},
 		{[]string{"-f", "toolchain.yaml"}, cfgA}, {[]string{"-f", "nosuch.yaml"}, none}} {
 		want := p.Impl(Op{"gen.run", append(append([][]byte{}, v.cfg...), prog)}, env.timeout)
 		if want.Status != "ok" {
